@@ -777,6 +777,164 @@ Proof.
       specialize (Hdep c i Hc Hi (H2 i c Hi Hr Hne Hc E) E'). lia.
 Qed.
 
+(* 8f. the level loop with the anti-dependency push (gauss_seidel after f214b60) *)
+Lemma push_levels_length l cs : forall level, length (push_levels level l cs) = length level.
+Proof.
+  unfold push_levels. induction cs as [|c cs IH]; intro level; simpl; [reflexivity|].
+  rewrite IH. apply updn_length.
+Qed.
+Lemma push_levels_mono l cs j : forall level, nth j level 0 <= nth j (push_levels level l cs) 0.
+Proof.
+  unfold push_levels. induction cs as [|c cs IH]; intro level; simpl; [lia|].
+  eapply Nat.le_trans; [|apply IH].
+  destruct (Nat.eq_dec j c) as [->|Hne].
+  - destruct (Nat.lt_ge_cases c (length level)) as [Hl|Hl].
+    + rewrite nth_updn_same by exact Hl. lia.
+    + rewrite (nth_overflow level) by exact Hl. lia.
+  - rewrite nth_updn_other by exact Hne. lia.
+Qed.
+Lemma push_levels_untouched l cs j : ~ In j cs -> forall level, nth j (push_levels level l cs) 0 = nth j level 0.
+Proof.
+  unfold push_levels. induction cs as [|c cs IH]; intros Hn level; simpl; [reflexivity|].
+  rewrite IH by (intro; apply Hn; right; auto). apply nth_updn_other. intro; subst. apply Hn. left; auto.
+Qed.
+Lemma push_levels_ge l cs j : In j cs -> forall level, j < length level -> l + 1 <= nth j (push_levels level l cs) 0.
+Proof.
+  unfold push_levels. induction cs as [|c cs IH]; intros Hin level Hj; [destruct Hin|]. simpl.
+  destruct Hin as [->|Hin].
+  - eapply Nat.le_trans; [|apply (push_levels_mono l cs j)].
+    rewrite nth_updn_same by exact Hj. lia.
+  - apply IH; auto. rewrite updn_length. exact Hj.
+Qed.
+
+Definition pstep (deps push : nat -> list nat) (level : list nat) (i : nat) : list nat :=
+  let l := row_level level i (deps i) in push_levels (updn level i l) l (push i).
+
+Lemma pstep_length deps push level i : length (pstep deps push level i) = length level.
+Proof. unfold pstep. rewrite push_levels_length. apply updn_length. Qed.
+Lemma pstep_mono deps push level i j : nth j level 0 <= nth j (pstep deps push level i) 0.
+Proof.
+  unfold pstep. eapply Nat.le_trans; [|apply push_levels_mono].
+  destruct (Nat.eq_dec j i) as [->|Hne].
+  - destruct (Nat.lt_ge_cases i (length level)) as [Hl|Hl].
+    + rewrite nth_updn_same by exact Hl. apply row_level_ge.
+    + rewrite (nth_overflow level) by exact Hl. lia.
+  - rewrite nth_updn_other by exact Hne. lia.
+Qed.
+Lemma pfold_length deps push order : forall level, length (fold_left (pstep deps push) order level) = length level.
+Proof. induction order as [|i order IH]; intro level; simpl; [reflexivity|]. rewrite IH. apply pstep_length. Qed.
+Lemma pfold_mono deps push order j : forall level, nth j level 0 <= nth j (fold_left (pstep deps push) order level) 0.
+Proof.
+  induction order as [|i order IH]; intro level; simpl; [lia|].
+  eapply Nat.le_trans; [apply (pstep_mono deps push level i j)|apply IH].
+Qed.
+Lemma pfold_untouched deps push order j : ~ In j order -> (forall i, In i order -> ~ In j (push i)) ->
+  forall level, nth j (fold_left (pstep deps push) order level) 0 = nth j level 0.
+Proof.
+  induction order as [|i order IH]; intros Hn Hp level; simpl; [reflexivity|].
+  rewrite IH; [|intro; apply Hn; right; auto|intros; apply Hp; right; auto].
+  unfold pstep. rewrite push_levels_untouched by (apply Hp; left; auto).
+  apply nth_updn_other. intro; subst. apply Hn. left; auto.
+Qed.
+
+Lemma before_split_right l1 i l2 c : NoDup (l1 ++ i :: l2) -> before (l1 ++ i :: l2) i c -> In c l2.
+Proof.
+  intros Hnd H.
+  assert (Hi1 : ~ In i l1).
+  { intro Hin. eapply NoDup_app_disj; [exact Hnd|exact Hin|simpl; auto]. }
+  assert (Hi2 : ~ In i l2).
+  { apply NoDup_app_remove_l in Hnd. inversion Hnd; auto. }
+  destruct (before_app_inv _ _ _ _ H) as [H1|[H1|[H1 H2]]].
+  - apply before_in_l in H1. contradiction.
+  - inversion H1; subst; auto.
+    match goal with Hb : before l2 _ _ |- _ => apply before_in_l in Hb end. contradiction.
+  - contradiction.
+Qed.
+
+(* both kinds of dependency are ordered by the final levels *)
+Theorem compute_levels_push_spec deps push order n : NoDup order -> (forall j, In j order -> j < n) ->
+  (forall i c, In i order -> In c (push i) -> In c order -> before order i c) ->
+  let L := compute_levels_push deps push order n in
+  (forall i c, In c (deps i) -> before order c i -> nth c L 0 < nth i L 0) /\
+  (forall i c, In i order -> In c (push i) -> In c order -> nth i L 0 < nth c L 0).
+Proof.
+  intros Hnd Hlt Hpush L. unfold L, compute_levels_push. fold (pstep deps push).
+  (* the value a row gets when it is processed is its final value *)
+  assert (Hfinal : forall l1 i l2, order = l1 ++ i :: l2 ->
+            nth i (fold_left (pstep deps push) order (repeat 0 n)) 0
+            = row_level (fold_left (pstep deps push) l1 (repeat 0 n)) i (deps i)).
+  { intros l1 i l2 E. rewrite E, fold_left_app. simpl.
+    set (L1 := fold_left (pstep deps push) l1 (repeat 0 n)).
+    assert (HL1 : length L1 = n) by (unfold L1; rewrite pfold_length, repeat_length; reflexivity).
+    assert (Hi2 : ~ In i l2).
+    { rewrite E in Hnd. apply NoDup_app_remove_l in Hnd. inversion Hnd; auto. }
+    assert (Hnp : forall k, In k (i :: l2) -> ~ In i (push k)).
+    { intros k Hk Hin. assert (Hko : In k order) by (rewrite E; apply in_or_app; right; exact Hk).
+      assert (Hio : In i order) by (rewrite E; apply in_or_app; right; left; reflexivity).
+      specialize (Hpush k i Hko Hin Hio). rewrite E in Hpush, Hnd.
+      apply before_split_left in Hpush; [|exact Hnd].
+      destruct Hk as [<-|Hk].
+      - eapply NoDup_app_disj; [exact Hnd|exact Hpush|simpl; auto].
+      - eapply NoDup_app_disj; [exact Hnd|exact Hpush|simpl; auto]. }
+    rewrite pfold_untouched; [| exact Hi2 | intros k Hk; apply Hnp; right; exact Hk].
+    unfold pstep. rewrite push_levels_untouched by (apply Hnp; left; reflexivity).
+    apply nth_updn_same. rewrite HL1. apply Hlt. rewrite E. apply in_or_app. right. left. reflexivity. }
+  split.
+  - intros i c Hc Hb.
+    assert (Hi : In i order) by (eapply before_in_r; eauto).
+    destruct (in_split _ _ Hi) as (l1 & l2 & E).
+    rewrite (Hfinal l1 i l2 E).
+    assert (Hc1 : In c l1) by (rewrite E in Hb, Hnd; eapply before_split_left; eauto).
+    destruct (in_split _ _ Hc1) as (m1 & m2 & E1).
+    assert (E' : order = m1 ++ c :: (m2 ++ i :: l2)) by (rewrite E, E1, <- app_assoc; reflexivity).
+    rewrite (Hfinal m1 c _ E').
+    set (L1 := fold_left (pstep deps push) l1 (repeat 0 n)).
+    destruct (row_level_ge L1 i (deps i)) as [_ H2]. specialize (H2 c Hc).
+    assert (Hge : row_level (fold_left (pstep deps push) m1 (repeat 0 n)) c (deps c) <= nth c L1 0).
+    { unfold L1. rewrite E1, fold_left_app. simpl.
+      set (M1 := fold_left (pstep deps push) m1 (repeat 0 n)).
+      assert (HM1 : length M1 = n) by (unfold M1; rewrite pfold_length, repeat_length; reflexivity).
+      eapply Nat.le_trans; [|apply pfold_mono].
+      unfold pstep at 1. eapply Nat.le_trans; [|apply push_levels_mono].
+      rewrite nth_updn_same; [lia|].
+      rewrite HM1. apply Hlt. rewrite E'. apply in_or_app. right. left. reflexivity. }
+    lia.
+  - intros i c Hi Hc Hco.
+    destruct (in_split _ _ Hi) as (l1 & l2 & E).
+    rewrite (Hfinal l1 i l2 E).
+    rewrite E, fold_left_app. simpl.
+    set (L1 := fold_left (pstep deps push) l1 (repeat 0 n)).
+    assert (HL1 : length L1 = n) by (unfold L1; rewrite pfold_length, repeat_length; reflexivity).
+    eapply Nat.lt_le_trans; [|apply pfold_mono].
+    unfold pstep. assert (Hcn : c < n) by (apply Hlt; exact Hco).
+    pose proof (push_levels_ge (row_level L1 i (deps i)) (push i) c Hc
+                  (updn L1 i (row_level L1 i (deps i)))) as Hg.
+    rewrite updn_length, HL1 in Hg. specialize (Hg Hcn). lia.
+Qed.
+
+Lemma compute_levels_push_length deps push order n : length (compute_levels_push deps push order n) = n.
+Proof. unfold compute_levels_push. fold (pstep deps push). rewrite pfold_length, repeat_length. reflexivity. Qed.
+
+(* a level array that orders every read against the serial order gives a valid schedule *)
+Theorem levels_valid reads n f nt (L : list nat) : 1 <= nt -> length L = n ->
+  (forall i c, i < n -> In c (reads i) -> c <> i -> c < n ->
+     (serial_before f c i = true -> nth c L 0 < nth i L 0) /\
+     (serial_before f c i = false -> nth i L 0 < nth c L 0)) ->
+  sched_valid reads n f (schedule_of_levels nt L).
+Proof.
+  intros Hnt HL HP. split; [|split].
+  - rewrite <- HL. apply schedule_of_levels_perm. exact Hnt.
+  - intros lv i j Hlv Hi Hj Hij Hr.
+    destruct (in_schedule_level nt L lv i Hnt Hlv Hi) as (k & Hin & Hk & Hall).
+    destruct (Hall j Hj) as [Hjn Hjk]. rewrite HL in *.
+    destruct (HP i j Hin Hr (not_eq_sym Hij) Hjn) as [P1 P2].
+    destruct (serial_before f j i) eqn:E; [specialize (P1 eq_refl)|specialize (P2 eq_refl)]; lia.
+  - intros i c Hi Hr Hne Hc. rewrite !level_in_schedule by (auto; lia).
+    destruct (HP i c Hi Hr Hne Hc) as [P1 P2]. split.
+    + intro E. apply P1. exact E.
+    + intro Hlt. destruct (serial_before f c i) eqn:E; [reflexivity|]. specialize (P2 eq_refl). lia.
+Qed.
+
 (* ================================================================================ *)
 (* 9. gauss_seidel::parallel_sweep and ilu_solve::sptr_solve (any Scalar)            *)
 Lemma fold_left_ext_in {X Y} (f g : X -> Y -> X) (l : list Y) : (forall a e, In e l -> f a e = g a e) ->
@@ -831,23 +989,35 @@ Lemma gs_deps_serial_before f (A : crs) i c :
   In c (gs_deps f A i) <-> In c (cols_of A i) /\ serial_before f c i = true.
 Proof. unfold gs_deps, serial_before. rewrite filter_In. destruct f; tauto. Qed.
 
-Theorem gs_schedule_valid f (A : crs) nt : 1 <= nt -> pattern_symmetric A ->
+Lemma gs_push_serial_before f (A : crs) i c :
+  In c (gs_push f A i) <-> In c (cols_of A i) /\ serial_before f i c = true.
+Proof. unfold gs_push, serial_before. rewrite filter_In. destruct f; tauto. Qed.
+
+(* the schedule built by the (fixed) constructor is valid for EVERY pattern *)
+Theorem gs_schedule_valid f (A : crs) nt : 1 <= nt ->
   sched_valid (gs_reads A) (nrows A) f (gs_schedule f A nt).
 Proof.
-  intros Hnt Hsym. unfold gs_schedule, gs_levels. apply model_schedule_valid; auto.
-  - intros i c Hi Hr Hne Hc E. apply gs_deps_serial_before. split; auto.
-    unfold gs_reads in Hr. apply filter_In in Hr. tauto.
-  - intros i c Hi Hr Hne Hc E. apply gs_deps_serial_before. split.
-    + apply Hsym; auto. unfold gs_reads in Hr. apply filter_In in Hr. tauto.
-    + apply serial_before_total; auto.
+  intros Hnt. unfold gs_schedule, gs_levels.
+  destruct (compute_levels_push_spec (gs_deps f A) (gs_push f A) (sweep_order f (nrows A)) (nrows A)
+              (sweep_order_NoDup f (nrows A)) (sweep_order_lt f (nrows A))) as [Hd Hp].
+  { intros i c Hi Hc Hco. apply gs_push_serial_before in Hc. destruct Hc as [_ Hc].
+    apply sweep_order_before_intro; auto; eapply sweep_order_lt; eauto. }
+  assert (Hin : forall j, j < nrows A -> In j (sweep_order f (nrows A))).
+  { intros j Hj. eapply Permutation_in; [apply Permutation_sym, sweep_order_perm|]. apply in_seq. lia. }
+  apply levels_valid; auto using compute_levels_push_length.
+  intros i c Hi Hr Hne Hc. unfold gs_reads in Hr. apply filter_In in Hr. destruct Hr as [Hr _]. split; intro E.
+  - apply Hd.
+    + apply gs_deps_serial_before. split; auto.
+    + apply sweep_order_before_intro; auto.
+  - apply Hp; auto. apply gs_push_serial_before. split; auto. apply serial_before_total; auto.
 Qed.
 
 Theorem gs_parallel_sweep_serial f (A : crs) nt rhs l (x : vec) :
-  1 <= nt -> pattern_symmetric A ->
+  1 <= nt ->
   InterleaveLevels (gs_par_levels f A nt rhs) l ->
   exec l x = gs_sweep A rhs x f.
 Proof.
-  intros Hnt Hsym Hil. rewrite <- gs_serial_steps_sweep. unfold gs_serial_steps.
+  intros Hnt Hil. rewrite <- gs_serial_steps_sweep. unfold gs_serial_steps.
   apply (sched_valid_sound S s0 (gs_step A rhs) (gs_reads A)) with (sch := gs_schedule f A nt).
   - intro i. apply gs_step_respects.
   - reflexivity.
@@ -859,19 +1029,44 @@ Qed.
 (* every row is in exactly one task; rows of a level do not conflict *)
 Theorem gs_schedule_perm f (A : crs) nt : 1 <= nt ->
   Permutation (flat_sched (gs_schedule f A nt)) (seq 0 (nrows A)).
-Proof.
-  intro H. unfold gs_schedule, gs_levels.
-  rewrite <- (compute_levels_length (gs_deps f A) (sweep_order f (nrows A)) (nrows A)) at 3.
-  apply schedule_of_levels_perm. exact H.
-Qed.
+Proof. intro H. apply (gs_schedule_valid f A nt H). Qed.
 
-Theorem gs_levels_cross_indep f (A : crs) nt rhs ts : 1 <= nt -> pattern_symmetric A ->
+Theorem gs_levels_cross_indep f (A : crs) nt rhs ts : 1 <= nt ->
   In ts (gs_par_levels f A nt rhs) -> cross_indep ts.
 Proof.
-  intros Hnt Hsym Hts. unfold gs_par_levels in Hts. apply in_map_iff in Hts. destruct Hts as (lv & <- & Hlv).
+  intros Hnt Hts. unfold gs_par_levels in Hts. apply in_map_iff in Hts. destruct Hts as (lv & <- & Hlv).
   apply (valid_cross_indep S (gs_step A rhs) (gs_reads A) (fun i => eq_refl) (fun i c H => or_intror H)
            (nrows A) f (gs_schedule f A nt)); auto.
   apply gs_schedule_valid; auto.
+Qed.
+
+(* the level numbers order both kinds of dependency *)
+Theorem gs_levels_order f (A : crs) i c : i < nrows A -> c < nrows A -> In c (cols_of A i) -> c <> i ->
+  (serial_before f c i = true -> nth c (gs_levels f A) 0 < nth i (gs_levels f A) 0) /\
+  (serial_before f c i = false -> nth i (gs_levels f A) 0 < nth c (gs_levels f A) 0).
+Proof.
+  intros Hi Hc Hr Hne. unfold gs_levels.
+  destruct (compute_levels_push_spec (gs_deps f A) (gs_push f A) (sweep_order f (nrows A)) (nrows A)
+              (sweep_order_NoDup f (nrows A)) (sweep_order_lt f (nrows A))) as [Hd Hp].
+  { intros i' c' Hi' Hc' Hco. apply gs_push_serial_before in Hc'. destruct Hc' as [_ Hc'].
+    apply sweep_order_before_intro; auto; eapply sweep_order_lt; eauto. }
+  assert (Hin : forall j, j < nrows A -> In j (sweep_order f (nrows A))).
+  { intros j Hj. eapply Permutation_in; [apply Permutation_sym, sweep_order_perm|]. apply in_seq. lia. }
+  split; intro E.
+  - apply Hd; [apply gs_deps_serial_before; split; auto|apply sweep_order_before_intro; auto].
+  - apply Hp; auto. apply gs_push_serial_before. split; auto. apply serial_before_total; auto.
+Qed.
+
+(* HISTORICAL: the old level rule is valid on structurally symmetric patterns only *)
+Theorem gs_schedule_old_valid_symmetric f (A : crs) nt : 1 <= nt -> pattern_symmetric A ->
+  sched_valid (gs_reads A) (nrows A) f (gs_schedule_old f A nt).
+Proof.
+  intros Hnt Hsym. unfold gs_schedule_old, gs_levels_old. apply model_schedule_valid; auto.
+  - intros i c Hi Hr Hne Hc E. apply gs_deps_serial_before. split; auto.
+    unfold gs_reads in Hr. apply filter_In in Hr. tauto.
+  - intros i c Hi Hr Hne Hc E. apply gs_deps_serial_before. split.
+    + apply Hsym; auto. unfold gs_reads in Hr. apply filter_In in Hr. tauto.
+    + apply serial_before_total; auto.
 Qed.
 
 (* --- sptr_solve --- *)
@@ -960,30 +1155,33 @@ Qed.
 Lemma qvals_neq (u v : vec QcS) : qvals u <> qvals v -> u <> v.
 Proof. intros H E. apply H. rewrite E. reflexivity. Qed.
 
-(* rows 0 and 1 get the same level although row 0 reads x[1], which row 1 writes:
-   thread 0 first gives the serial result (5,1), thread 1 first gives (9,1) *)
-Theorem gs_schedule_race_refuted :
+(* HISTORICAL (old level rule, before /repo f214b60): rows 0 and 1 get the same level
+   although row 0 reads x[1], which row 1 writes: thread 0 first gives the serial result
+   (5,1), thread 1 first gives (9,1).  With the fixed rule the same input is fine. *)
+Theorem gs_schedule_old_race_refuted :
   exists (A : crs QcS) (nt : nat) (rhs x : vec QcS) (l1 l2 : list (step QcS)),
     4 <= nt /\
-    InterleaveLevels (gs_par_levels true A nt rhs) l1 /\
-    InterleaveLevels (gs_par_levels true A nt rhs) l2 /\
+    InterleaveLevels (gs_par_levels_old true A nt rhs) l1 /\
+    InterleaveLevels (gs_par_levels_old true A nt rhs) l2 /\
     exec l1 x <> exec l2 x /\
     exec l1 x = gs_sweep A rhs x true /\
     exec l2 x <> gs_sweep A rhs x true /\
-    gs_sched_ok true A (gs_schedule true A nt) = false.
+    gs_sched_ok true A (gs_schedule_old true A nt) = false /\
+    gs_sched_ok true A (gs_schedule true A nt) = true.
 Proof.
   exists race_A, 4, race_f, race_x,
-         (pick_levels [[0; 1]]%nat (gs_par_levels true race_A 4 race_f)),
-         (pick_levels [[1; 0]]%nat (gs_par_levels true race_A 4 race_f)).
+         (pick_levels [[0; 1]]%nat (gs_par_levels_old true race_A 4 race_f)),
+         (pick_levels [[1; 0]]%nat (gs_par_levels_old true race_A 4 race_f)).
   split; [lia|]. split; [apply pick_levels_Interleave|]. split; [apply pick_levels_Interleave|].
-  split; [|split; [|split]].
+  split; [|split; [|split; [|split]]].
   - apply qvals_neq. vm_compute. discriminate.
   - apply qvals_inj. vm_compute. reflexivity.
   - apply qvals_neq. vm_compute. discriminate.
   - vm_compute. reflexivity.
+  - vm_compute. reflexivity.
 Qed.
 
-(* second form of the same defect: the row that is read lands in an EARLIER level, so
+(* HISTORICAL, second form of the same defect: the row that is read lands in an EARLIER level, so
    the parallel sweep deterministically uses the new value where the serial sweep uses
    the old one.  Rows {0:1} {0:1,1:1,2:1} {2:2}: levels (0,1,0); row 1 reads x[2]. *)
 Definition ord_A : crs QcS :=
@@ -991,17 +1189,19 @@ Definition ord_A : crs QcS :=
 Definition ord_f : vec QcS := [qc 1 1; qc 10 1; qc 4 1].
 Definition ord_x : vec QcS := [qc 0 1; qc 0 1; qc 5 1].
 
-Theorem gs_schedule_order_refuted :
+Theorem gs_schedule_old_order_refuted :
   exists (A : crs QcS) (nt : nat) (rhs x : vec QcS) (l : list (step QcS)),
     4 <= nt /\
-    InterleaveLevels (gs_par_levels true A nt rhs) l /\
-    level_conflict_free (gs_reads A) (gs_schedule true A nt) = true /\
+    InterleaveLevels (gs_par_levels_old true A nt rhs) l /\
+    level_conflict_free (gs_reads A) (gs_schedule_old true A nt) = true /\
     exec l x <> gs_sweep A rhs x true /\
-    first_dep_violation (gs_reads A) (nrows A) true (gs_schedule true A nt) = Some (1, 2)%nat.
+    first_dep_violation (gs_reads A) (nrows A) true (gs_schedule_old true A nt) = Some (1, 2)%nat /\
+    gs_sched_ok true A (gs_schedule true A nt) = true.
 Proof.
-  exists ord_A, 4, ord_f, ord_x, (pick_levels [] (gs_par_levels true ord_A 4 ord_f)).
-  split; [lia|]. split; [apply pick_levels_Interleave|]. split; [vm_compute; reflexivity|]. split.
+  exists ord_A, 4, ord_f, ord_x, (pick_levels [] (gs_par_levels_old true ord_A 4 ord_f)).
+  split; [lia|]. split; [apply pick_levels_Interleave|]. split; [vm_compute; reflexivity|]. split; [|split].
   - apply qvals_neq. vm_compute. discriminate.
+  - vm_compute. reflexivity.
   - vm_compute. reflexivity.
 Qed.
 
@@ -1048,3 +1248,339 @@ Example schedules_nontrivial :
   sptr_schedule false tri_U 2 = [[[2]; [4]]; [[1]; [3]]; [[0]; []]]%nat /\
   omp_chunks 4 (seq 0 10) = [[0; 1; 2]; [3; 4; 5]; [6; 7; 8]; [9]]%nat.
 Proof. vm_compute. repeat split; reflexivity. Qed.
+
+(* ================================================================================ *)
+(* 11. row-parallel loops are maps (any value type, any assignment of iterations to
+       threads, any interleaving)                                                    *)
+Section ParFor.
+Variable V : Type.
+Variable d : V.
+Variable body : nat -> V -> V.
+
+Lemma pf_step_respects i : respects V d (pf_step d body i).
+Proof. intros st st' H. simpl. f_equal. apply (H i). simpl. auto. Qed.
+
+Lemma upd_app_r (l1 l2 : list V) v : upd (l1 ++ l2) (length l1) v = l1 ++ upd l2 0 v.
+Proof. induction l1 as [|a l1 IH]; simpl; [reflexivity|]. f_equal. exact IH. Qed.
+
+Lemma skipn_cons_nth (st : list V) k : k < length st -> skipn k st = nth k st d :: skipn (Datatypes.S k) st.
+Proof.
+  revert k; induction st as [|a st IH]; intros k H; simpl in H; [lia|].
+  destruct k as [|k]; [reflexivity|]. simpl. apply IH. lia.
+Qed.
+
+Lemma exec_par_for_seq k : forall st, k <= length st ->
+  exec (map (pf_step d body) (seq 0 k)) st = map (fun i => body i (nth i st d)) (seq 0 k) ++ skipn k st.
+Proof.
+  induction k as [|k IH]; intros st H; [reflexivity|].
+  rewrite seq_S, !map_app, exec_app, IH by lia. simpl.
+  set (M := map (fun i => body i (nth i st d)) (seq 0 k)).
+  assert (HM : length M = k) by (unfold M; rewrite map_length, seq_length; reflexivity).
+  rewrite (skipn_cons_nth st k) by lia. set (T := skipn (Datatypes.S k) st).
+  unfold exec, exec1. cbn [fold_left pf_step wr fn].
+  rewrite app_nth2 by lia. rewrite HM, Nat.sub_diag. cbn [nth].
+  replace (upd (M ++ nth k st d :: T) k (body k (nth k st d)))
+    with (upd (M ++ nth k st d :: T) (length M) (body k (nth k st d))) by (rewrite HM; reflexivity).
+  rewrite upd_app_r. cbn [upd map]. rewrite <- app_assoc. reflexivity.
+Qed.
+
+Theorem par_for_map n (its : list (list nat)) l st : length st = n ->
+  Permutation (concat its) (seq 0 n) ->
+  Interleave (par_for_steps d body its) l ->
+  exec l st = map (fun i => body i (nth i st d)) (seq 0 n).
+Proof.
+  intros Hlen Hp Hil.
+  assert (Hnd : NoDup (concat its)).
+  { eapply Permutation_NoDup; [apply Permutation_sym; exact Hp|apply seq_NoDup]. }
+  rewrite (bernstein V d _ _ Hil).
+  - unfold par_for_steps. rewrite <- concat_map.
+    rewrite (trace_equiv V d (pf_step d body) pf_step_respects (concat its) (seq 0 n) Hnd Hp).
+    + rewrite exec_par_for_seq by lia. rewrite <- Hlen, skipn_all, app_nil_r. reflexivity.
+    + intros a b Hab _. assert (Hne := before_neq _ _ _ Hnd Hab).
+      unfold indep. simpl. repeat split; auto; intros [H|[]]; congruence.
+  - unfold par_for_steps. rewrite Forall_forall. intros t Ht. apply in_map_iff in Ht. destruct Ht as (r & <- & _).
+    rewrite Forall_forall. intros s Hs. apply in_map_iff in Hs. destruct Hs as (i & <- & _). apply pf_step_respects.
+  - intros i j a b Hij Ha Hb. unfold par_for_steps in Ha, Hb.
+    change (@nil (step V)) with (map (pf_step d body) []) in Ha, Hb. rewrite map_nth in Ha, Hb.
+    apply in_map_iff in Ha, Hb. destruct Ha as (x & <- & Hx). destruct Hb as (y & <- & Hy).
+    assert (Hxy : x <> y) by (intro; subst; eapply (NoDup_concat_nth its i j y); eauto).
+    unfold indep. simpl. repeat split; auto; intros [H|[]]; congruence.
+Qed.
+
+End ParFor.
+
+(* the kernels of the model that have this shape: every in-place vector update of
+   Kernels.v is an [upd2]/[upd3] (spmv, residual, axpby, axpbypcz, vmul, copy), every
+   row-wise matrix kernel of MatOps.v is a [map] over the rows of A (spgemm_saad,
+   msum, mscale, sort_rows, diagonal, SA smoothing) *)
+Lemma upd2_as_map {S : Scalar} (f : S -> S -> S) (x y : vec S) : length x = length y ->
+  upd2 f x y = map (fun i => f (vget x i) (nth i y s0)) (seq 0 (length y)).
+Proof.
+  revert y; induction x as [|a x IH]; intros [|b y] H; simpl in *; try lia; [reflexivity|].
+  f_equal. rewrite <- seq_shift, map_map. apply IH. lia.
+Qed.
+Lemma upd3_as_map {S : Scalar} (f : S -> S -> S -> S) (x y z : vec S) :
+  length x = length z -> length y = length z ->
+  upd3 f x y z = map (fun i => f (vget x i) (vget y i) (nth i z s0)) (seq 0 (length z)).
+Proof.
+  revert y z; induction x as [|a x IH]; intros [|b y] [|c z] H1 H2; simpl in *; try lia; [reflexivity|].
+  f_equal. rewrite <- seq_shift, map_map. apply IH; lia.
+Qed.
+Lemma map_as_seq {X Y} (F : X -> Y) (dx : X) (l : list X) :
+  map F l = map (fun i => F (nth i l dx)) (seq 0 (length l)).
+Proof.
+  induction l as [|a l IH]; simpl; [reflexivity|]. f_equal. rewrite <- seq_shift, map_map. exact IH.
+Qed.
+
+Theorem upd2_parallel {S : Scalar} (f : S -> S -> S) (x y : vec S) its l : length x = length y ->
+  Permutation (concat its) (seq 0 (length y)) ->
+  Interleave (par_for_steps s0 (fun i yi => f (vget x i) yi) its) l ->
+  exec l y = upd2 f x y.
+Proof.
+  intros Hlen Hp Hil. rewrite upd2_as_map by exact Hlen.
+  apply (par_for_map S s0 (fun i yi => f (vget x i) yi) (length y) its l y eq_refl Hp Hil).
+Qed.
+Theorem upd3_parallel {S : Scalar} (f : S -> S -> S -> S) (x y z : vec S) its l :
+  length x = length z -> length y = length z ->
+  Permutation (concat its) (seq 0 (length z)) ->
+  Interleave (par_for_steps s0 (fun i zi => f (vget x i) (vget y i) zi) its) l ->
+  exec l z = upd3 f x y z.
+Proof.
+  intros H1 H2 Hp Hil. rewrite upd3_as_map by assumption.
+  apply (par_for_map S s0 (fun i zi => f (vget x i) (vget y i) zi) (length z) its l z eq_refl Hp Hil).
+Qed.
+(* row-wise matrix kernels: output row i = F (input row i); the output array may hold
+   anything before the loop *)
+Theorem map_rows_parallel {X Y} (F : X -> Y) (dx : X) (dy : Y) (inp : list X) (out : list Y) its l :
+  length out = length inp ->
+  Permutation (concat its) (seq 0 (length inp)) ->
+  Interleave (par_for_steps dy (fun i _ => F (nth i inp dx)) its) l ->
+  exec l out = map F inp.
+Proof.
+  intros Hlen Hp Hil. rewrite (map_as_seq F dx inp).
+  apply (par_for_map Y dy (fun i _ => F (nth i inp dx)) (length inp) its l out Hlen Hp Hil).
+Qed.
+
+(* ================================================================================ *)
+(* 12. reductions.  (a) an associative-commutative operation folded over per-thread
+       partial results gives the serial fold for every chunking, every order of the
+       elements inside the chunks and every order in which the threads enter the
+       critical section, provided the start value is idempotent; (b) std::max over a
+       strict total order is such an operation (bitwise for floats without NaN and
+       without mixed signed zeros); (c) for + the inner product theorem of C07
+       (KernelsProofs.inner_product_parallel_spec) covers the ring case.              *)
+Section Reduce.
+Variable X : Type.
+Variable op : X -> X -> X.
+Hypothesis op_assoc : forall a b c, op (op a b) c = op a (op b c).
+Hypothesis op_comm : forall a b, op a b = op b a.
+
+Lemma fold_left_op_acc l : forall a b, fold_left op l (op a b) = op a (fold_left op l b).
+Proof.
+  induction l as [|x l IH]; intros a b; simpl; [reflexivity|].
+  rewrite op_assoc. apply IH.
+Qed.
+
+Lemma reduce_perm e l l' : Permutation l l' -> reduce op e l = reduce op e l'.
+Proof.
+  unfold reduce. intro H. revert e. induction H as [|x l l' H IH|x y l|l l' l'' H1 IH1 H2 IH2]; intro e; simpl.
+  - reflexivity.
+  - apply IH.
+  - f_equal. rewrite !op_assoc. f_equal. apply op_comm.
+  - rewrite IH1. apply IH2.
+Qed.
+
+Lemma reduce_chunked_concat e cs : op e e = e -> reduce_chunked op e cs = reduce op e (concat cs).
+Proof.
+  intro He. unfold reduce_chunked, reduce.
+  assert (G : forall a, op a e = a ->
+            fold_left op (map (fun c => fold_left op c e) cs) a = fold_left op (concat cs) a).
+  { induction cs as [|c cs IH]; intros a Ha; simpl; [reflexivity|].
+    rewrite fold_left_app.
+    assert (E : op a (fold_left op c e) = fold_left op c a) by (rewrite <- fold_left_op_acc, Ha; reflexivity).
+    rewrite E. apply IH. rewrite <- E.
+    rewrite op_assoc, (op_comm _ e), <- op_assoc, Ha. reflexivity. }
+  apply G. exact He.
+Qed.
+
+Theorem reduce_chunked_any_order e cs l : op e e = e -> Permutation (concat cs) l ->
+  reduce_chunked op e cs = reduce op e l.
+Proof. intros He Hp. rewrite reduce_chunked_concat by exact He. apply reduce_perm. exact Hp. Qed.
+End Reduce.
+
+Section MaxReduce.
+Variable S : Scalar.
+Hypothesis lt_irr : forall a : S, sltb a a = false.
+Hypothesis lt_trans : forall a b c : S, sltb a b = true -> sltb b c = true -> sltb a c = true.
+Hypothesis lt_tri : forall a b : S, sltb a b = false -> sltb b a = false -> a = b.
+
+Lemma lt_asym (a b : S) : sltb a b = true -> sltb b a = false.
+Proof.
+  intro H. destruct (sltb b a) eqn:E; [|reflexivity].
+  rewrite <- (lt_irr a). symmetry. eapply lt_trans; eauto.
+Qed.
+
+Lemma smax_idem (a : S) : smax a a = a.
+Proof. unfold smax. rewrite lt_irr. reflexivity. Qed.
+
+Lemma smax_comm (a b : S) : smax a b = smax b a.
+Proof.
+  unfold smax. destruct (sltb a b) eqn:AB.
+  - rewrite (lt_asym _ _ AB). reflexivity.
+  - destruct (sltb b a) eqn:BA; [reflexivity|]. symmetry. apply lt_tri; auto.
+Qed.
+
+Lemma smax_assoc (a b c : S) : smax (smax a b) c = smax a (smax b c).
+Proof.
+  unfold smax. destruct (sltb a b) eqn:AB; destruct (sltb b c) eqn:BC; try rewrite AB; try rewrite BC.
+  - rewrite (lt_trans _ _ _ AB BC). reflexivity.
+  - reflexivity.
+  - reflexivity.
+  - destruct (sltb a c) eqn:AC; [|reflexivity]. exfalso.
+    destruct (sltb b a) eqn:BA.
+    + rewrite (lt_trans _ _ _ BA AC) in BC. discriminate.
+    + assert (a = b) by (apply lt_tri; auto). subst. congruence.
+Qed.
+
+Theorem max_reduction_order_independent (e : S) (cs : list (list S)) (l : list S) :
+  Permutation (concat cs) l -> reduce_chunked smax e cs = reduce smax e l.
+Proof.
+  apply reduce_chunked_any_order; [exact smax_assoc|exact smax_comm|apply smax_idem].
+Qed.
+End MaxReduce.
+
+(* closed at the exact rationals *)
+Lemma qc_ltb_lt (a b : Qc) : qc_ltb a b = true <-> (this a < this b)%Q.
+Proof. unfold qc_ltb, Qlt. apply Z.ltb_lt. Qed.
+Lemma QcS_lt_irr (a : QcS) : sltb a a = false.
+Proof.
+  simpl. destruct (qc_ltb a a) eqn:E; [|reflexivity]. apply qc_ltb_lt in E.
+  exfalso. eapply Qlt_irrefl; eauto.
+Qed.
+Lemma QcS_lt_trans (a b c : QcS) : sltb a b = true -> sltb b c = true -> sltb a c = true.
+Proof. simpl. rewrite !qc_ltb_lt. apply Qlt_trans. Qed.
+Lemma QcS_lt_tri (a b : QcS) : sltb a b = false -> sltb b a = false -> a = b.
+Proof.
+  simpl. intros H1 H2. apply Qc_is_canon.
+  apply Qle_antisym; apply Qnot_lt_le; intro H; apply qc_ltb_lt in H; congruence.
+Qed.
+
+(* ================================================================================ *)
+(* 13. (ring) the row function of sptr_solve, X = sum; x[i] -= X, applied in serial
+       order is serial_solve's entry-by-entry in-place update                         *)
+Lemma upd_upd_same {V} (st : list V) i a b : upd (upd st i a) i b = upd st i b.
+Proof. revert i; induction st as [|x st IH]; intros [|i]; simpl; auto. f_equal. apply IH. Qed.
+Lemma upd_same {V} (d : V) (st : list V) i : upd st i (nth i st d) = st.
+Proof. revert i; induction st as [|x st IH]; intros [|i]; simpl; auto. f_equal. apply IH. Qed.
+Lemma exec_length {V} (l : list (step V)) : forall st, length (exec l st) = length st.
+Proof.
+  induction l as [|s l IH]; intro st; [reflexivity|].
+  change (exec (s :: l) st) with (exec l (exec1 s st)). rewrite IH. apply upd_length.
+Qed.
+Lemma fold_left_inv {X Y} (P : X -> Prop) (f g : X -> Y -> X) (l : list Y) :
+  (forall a e, In e l -> P a -> f a e = g a e /\ P (f a e)) ->
+  forall a, P a -> fold_left f l a = fold_left g l a.
+Proof.
+  induction l as [|e l IH]; intros H a Pa; simpl; [reflexivity|].
+  destruct (H a e (or_introl eq_refl) Pa) as [E Pn]. rewrite <- E. apply IH; auto.
+  intros a' e' He' Pa'. apply H; auto. right; auto.
+Qed.
+
+Section SptrRing.
+Variable S : Scalar.
+Hypothesis Srt : Sring S.
+Add Ring SptrR : Srt.
+Local Open Scope S_scope.
+Local Notation vec := (vec S).
+Local Notation crs := (crs S).
+
+Lemma vget_upd_same (x : vec) i v : i < length x -> vget (upd x i v) i = v.
+Proof. intro H. unfold vget. apply (rd_upd_same S s0). exact H. Qed.
+Lemma vget_upd_other (x : vec) i c v : c <> i -> vget (upd x i v) c = vget x c.
+Proof. intro H. unfold vget. apply (rd_upd_other S s0). exact H. Qed.
+
+Lemma sub_fold (r : row S) (x : vec) a : forall X,
+  fold_left (fun acc e => acc - snd e * vget x (fst e)) r (a - X)
+  = a - fold_left (fun X e => X + snd e * vget x (fst e)) r X.
+Proof.
+  induction r as [|e r IH]; intro X; simpl; [reflexivity|].
+  replace (a - X - snd e * vget x (fst e)) with (a - (X + snd e * vget x (fst e))) by ring.
+  apply IH.
+Qed.
+
+Lemma serial_row_strict i (r : row S) : (forall e, In e r -> fst e <> i) ->
+  forall x : vec, i < length x ->
+  serial_row i r x = upd x i (fold_left (fun acc e => acc - snd e * vget x (fst e)) r (vget x i)).
+Proof.
+  unfold serial_row. induction r as [|e r IH]; intros Hne x Hi; simpl.
+  - unfold vget. rewrite upd_same. reflexivity.
+  - rewrite set_nth_upd. rewrite IH; [|intros; apply Hne; right; auto|rewrite upd_length; exact Hi].
+    rewrite upd_upd_same. f_equal.
+    rewrite vget_upd_same by exact Hi.
+    apply fold_left_ext_in. intros a e' He'. rewrite vget_upd_other by (apply Hne; right; auto). reflexivity.
+Qed.
+
+Lemma sptr_row_lower (A : crs) (D : vec) i (x : vec) :
+  (forall e, In e (nth i (rows A) []) -> fst e <> i) -> i < length x ->
+  exec1 (sptr_step true A D i) x = serial_row i (nth i (rows A) []) x.
+Proof.
+  intros Hne Hi. rewrite serial_row_strict by auto. unfold exec1. simpl. f_equal.
+  unfold sptr_sum. replace (vget x i) with (vget x i - s0) at 2 by ring.
+  rewrite sub_fold. reflexivity.
+Qed.
+
+Lemma sptr_row_upper (A : crs) (D : vec) i (x : vec) :
+  (forall e, In e (nth i (rows A) []) -> fst e <> i) -> i < length x ->
+  exec1 (sptr_step false A D i) x =
+  (let x' := serial_row i (nth i (rows A) []) x in set_nth x' i (vget D i * vget x' i)).
+Proof.
+  intros Hne Hi. cbv zeta. rewrite serial_row_strict by auto. rewrite set_nth_upd, upd_upd_same.
+  rewrite vget_upd_same by exact Hi.
+  unfold exec1. simpl. f_equal. f_equal.
+  unfold sptr_sum. replace (vget x i) with (vget x i - s0) at 2 by ring.
+  rewrite sub_fold. reflexivity.
+Qed.
+
+Lemma strict_row_ne lower (A : crs) i e : strict_tri lower A -> i < nrows A ->
+  In e (nth i (rows A) []) -> fst e <> i.
+Proof.
+  intros Hst Hi He. assert (Hc : In (fst e) (cols_of A i)) by (unfold cols_of, row_cols; apply in_map; auto).
+  destruct lower; simpl in Hst; specialize (Hst i (fst e) Hi Hc); lia.
+Qed.
+
+Theorem sptr_serial_steps_lower (L : crs) (D x : vec) : strict_tri true L -> length x = nrows L ->
+  exec (sptr_serial_steps true L D) x = serial_lower L x.
+Proof.
+  intros Hst Hlen. unfold sptr_serial_steps, serial_lower, exec, sweep_order. rewrite fold_left_map.
+  apply (fold_left_inv (fun v : vec => length v = nrows L)); [|exact Hlen].
+  intros a i Hi Pa. apply in_seq in Hi. split.
+  - apply sptr_row_lower; [|lia]. intros e He. eapply strict_row_ne; eauto. lia.
+  - unfold exec1. rewrite upd_length. exact Pa.
+Qed.
+
+Theorem sptr_serial_steps_upper (U : crs) (D x : vec) : strict_tri false U -> length x = nrows U ->
+  exec (sptr_serial_steps false U D) x = serial_upper U D x.
+Proof.
+  intros Hst Hlen. unfold sptr_serial_steps, serial_upper, exec, sweep_order. rewrite fold_left_map.
+  apply (fold_left_inv (fun v : vec => length v = nrows U)); [|exact Hlen].
+  intros a i Hi Pa. apply in_rev in Hi. apply in_seq in Hi. split.
+  - apply sptr_row_upper; [|lia]. intros e He. eapply strict_row_ne; eauto. lia.
+  - unfold exec1. rewrite upd_length. exact Pa.
+Qed.
+
+(* parallel_solve = serial_solve for every thread count and every interleaving *)
+Theorem ilu_parallel_solve_serial (L U : crs) (D x : vec) nt l1 l2 :
+  1 <= nt -> strict_tri true L -> strict_tri false U ->
+  length x = nrows L -> nrows U = nrows L ->
+  InterleaveLevels (sptr_par_levels true L D nt) l1 ->
+  InterleaveLevels (sptr_par_levels false U D nt) l2 ->
+  exec l2 (exec l1 x) = ilu_serial_solve L U D x.
+Proof.
+  intros Hnt HL HU Hlen Hn H1 H2. unfold ilu_serial_solve.
+  rewrite (sptr_solve_serial_steps false U D nt l2) by auto.
+  rewrite (sptr_solve_serial_steps true L D nt l1) by auto.
+  rewrite (sptr_serial_steps_lower L D x) by auto.
+  apply sptr_serial_steps_upper; auto.
+  rewrite <- (sptr_serial_steps_lower L D x) by auto. rewrite exec_length. lia.
+Qed.
+End SptrRing.
